@@ -433,21 +433,38 @@ func callEntry(r *core.Run, entry int, d delivery, cpool *x509.CertPool, rootLis
 			// "no roots": the CLI always needs a root file; an empty file is the closest it can get
 			io.Files["roots.pem"] = nil
 		}
+		// the root comes from the named file or, when the caller names none, from the well-known
+		// default location, which in that case serves the drawn root set
+		rootArgs, via := []string{"--root_cert", "roots.pem"}, ""
+		if r.Chance(25, "cli-default-root") {
+			rootArgs, via = nil, "+default-root"
+			net.Objects[gcetcbendorsement.DefaultRootURL] = pemOf(rootList...)
+		}
+		cli := func(args ...string) error {
+			full := append([]string{args[0]}, args[1:]...)
+			// insert the root arguments right after the (sub)command words
+			n := 1
+			if args[0] == "sev" || args[0] == "tdx" {
+				n = 2
+			}
+			full = append(append(append([]string(nil), args[:n]...), rootArgs...), args[n:]...)
+			return runCLI(b, full...)
+		}
 		switch r.Intn(3, "cli-cmd") {
 		case 0:
-			return runCLI(b, "verify", "--root_cert", "roots.pem", "e.binarypb"), "cli/verify", false
+			return cli("verify", "e.binarypb"), "cli/verify" + via, false
 		case 1:
 			// (a bare sevsnp.Attestation serialization is sniffed as a TEE-less go-tpm-tools
 			// Attestation by extract.Attestation, so the documented wrapper format is used)
 			at, _ := proto.Marshal(&tpmpb.Attestation{TeeAttestation: &tpmpb.Attestation_SevSnpAttestation{SevSnpAttestation: SnpAttestation(meas, nil)}})
 			io.Files["att.bin"] = at
-			return runCLI(b, "sev", "validate", "--root_cert", "roots.pem", "--endorsement", "e.binarypb", "att.bin"), "cli/sev-validate", false
+			return cli("sev", "validate", "--endorsement", "e.binarypb", "att.bin"), "cli/sev-validate" + via, false
 		default:
 			if len(mrtd) != 48 {
 				return nil, "", true
 			}
 			io.Files["quote.bin"] = TdxQuoteRaw(TdxQuote(mrtd))
-			return runCLI(b, "tdx", "validate", "--root_cert", "roots.pem", "--endorsement", "e.binarypb", "quote.bin"), "cli/tdx-validate", false
+			return cli("tdx", "validate", "--endorsement", "e.binarypb", "quote.bin"), "cli/tdx-validate" + via, false
 		}
 	case 12:
 		// the caller's endorsement is the delivery, while the attestation's certificate table
